@@ -14,7 +14,9 @@ from common import rq, enc_list, close
 REQUIRED = ['sum_mult_eq_replicate', 'sumIf_replicate', 'score_replicate', 'cellfit_replicate', 'saturated_fits_agree',
             'std_replicate', 'hajek_replicate', 'iptw_replicate', 'stoch_iptw_replicate', 'gformula_replicate',
             'gformula_replicate_targets', 'gtransport_replicate', 'aipw_replicate', 'aipw_missing_replicate',
-            'snm_replicate', 'survival_replicate']
+            'snm_replicate', 'survival_replicate',
+            # ties to the source: Props/C09_Snm.lean, Props/C09_Transport.lean
+            'snm_generated', 'snm_generated_replicate', 'gtransport_fit_generated_replicate']
 RULE = ('random data sets (1-3 categorical covariates, <= 8 strata, positivity by construction; outcome binary / normal '
         '/ count; outcomes complete, missing completely at random, or missing depending on A and L) with an integer '
         'weights column drawn from 1..4 (int or float dtype); every estimator is run with weights=<column> and, '
